@@ -48,12 +48,18 @@ def env():
     e = dict(os.environ)
     e["CARGO_NET_OFFLINE"] = "true"
     e["TZSIM_CORPUS"] = os.path.join(VERIF_DIR, "corpus")
+    # the system-call seam (counts requests for the real clock / environment / file system / cwd / pid)
+    shim = os.path.join(VERIF_DIR, "target", "libtzseam.so")
+    if os.path.exists(shim):
+        e["LD_PRELOAD"] = shim
     e.pop("RUSTFLAGS", None)  # .cargo/config.toml carries --cfg tz_rs_verif
     return e
 
 
 def sh(argv, cwd=None, timeout=None, extra_env=None):
     e = env()
+    if argv and argv[0] in ("cargo", "git", "cc"):
+        e.pop("LD_PRELOAD", None)
     if extra_env:
         e.update(extra_env)
     p = subprocess.run(argv, cwd=cwd, env=e, stdout=subprocess.PIPE, stderr=subprocess.STDOUT, text=True, timeout=timeout)
@@ -93,8 +99,29 @@ def tz_rs_builds(verif):
     return rc == 0, out
 
 
+def build_shim(verif):
+    """The LD_PRELOAD seam is plain C; without a C compiler the ambient-read oracle is simply off."""
+    src = os.path.join(verif, "seam", "seam.c")
+    dst = os.path.join(verif, "target", "libtzseam.so")
+    os.makedirs(os.path.dirname(dst), exist_ok=True)
+    try:
+        if os.path.exists(dst) and os.path.getmtime(dst) >= os.path.getmtime(src):
+            return True
+        e = dict(os.environ)
+        e.pop("LD_PRELOAD", None)
+        p = subprocess.run(["cc", "-shared", "-fPIC", "-O2", "-o", dst + ".tmp", src, "-ldl"], env=e, stdout=subprocess.PIPE, stderr=subprocess.STDOUT, text=True, timeout=120)
+        if p.returncode == 0:
+            os.replace(dst + ".tmp", dst)
+            return True
+        print("note: the system-call seam could not be built (ambient-read oracle off):", p.stdout[-300:])
+    except Exception as ex:  # noqa: BLE001
+        print("note: the system-call seam could not be built (ambient-read oracle off):", ex)
+    return False
+
+
 def ensure_built(verif):
     """Rebuild the worker from /repo's working tree. Exit 2 if it cannot be built."""
+    build_shim(verif)
     rc, out = build_tzsim(verif)
     if rc != 0:
         ok, out2 = tz_rs_builds(verif)
